@@ -242,7 +242,7 @@ func c06verify(c *Ctx, p *load.Program, pkgPath, prefix, tag string) {
 		cst, isC := r.Results[0].(*ssa.Const)
 		if isC && cst.Value != nil && cst.Value.ExactString() == "false" {
 			// classify
-			fs := facts.At(r, nil)
+			fs := acceptFacts(r)
 			// facts inside the inner duplicate loop etc.
 			class := ""
 			for _, f := range fs {
